@@ -85,7 +85,7 @@ check("C08", "exploration",
       "Operation histories (reads in all modes, abandoned / unclosed / never started reads, validate with limit 0, writes with "
       "and without close) are executed on one Cid object; the recorded outcome of the last operation of every history - items, "
       "rejections with row numbers, end-of-data result, written text, counters - must equal the recorded outcome of the same "
-      "operation on a freshly loaded Cid. All histories up to length 2 (quick) / 3 (thorough) over 60 operations x 5 CIDs are "
+      "operation on a freshly loaded Cid. All histories up to length 2 (quick) / 3 (thorough) over 66 operations x 6 CIDs are "
       "enumerated, longer ones sampled; pairs of runs that overlap in time (every interleaving of open / one row per step / close) are compared with each run alone on a fresh Cid.",
       "The reference is the implementation itself with fresh state (history + model where model = fresh execution).",
       "recorded operation histories compared with fresh-state executions of the same operation", "DESIGN.md 5/C08")
